@@ -184,9 +184,12 @@ func c01GenLine(r *Rng, mut string) string {
 	default:
 		n := Pick(r, []int{0, 1, 3, 8, 16, 64, 200})
 		b := r.Bytes(n)
-		if r.Chance(40) && n >= 8 { // looks like an IPC continuation marker + length
+		switch {
+		case r.Chance(40) && n >= 8: // looks like an IPC continuation marker + small length
 			copy(b, []byte{0xff, 0xff, 0xff, 0xff})
 			b[4], b[5], b[6], b[7] = byte(r.Intn(64)), 0, 0, 0
+		case r.Chance(75) && n >= 4: // legacy framing: the first word is the metadata length; keep it small
+			b[1], b[2], b[3] = byte(r.Intn(2)), 0, 0
 		}
 		return "raw - x" + hex.EncodeToString(b)
 	}
@@ -194,11 +197,11 @@ func c01GenLine(r *Rng, mut string) string {
 
 func c01Gen(g *Gen) {
 	r := g.Rng
-	n := g.N(1500, 100000)
+	n := g.N(900, 60000)
 	for i := 0; i < n; i++ {
 		g.Case(c01GenLine(r, "-"))
 	}
-	for i := 0; i < n; i++ {
+	for i := 0; i < n*2/3; i++ {
 		g.Case(c01GenLine(r, c01GenMut(r)))
 	}
 	if g.Thorough() {
